@@ -4,6 +4,7 @@
 -/
 import CnvVerif.Basic
 import CnvVerif.Generated.CallConsts
+import CnvVerif.Model.Descriptives
 namespace CnvVerif
 
 /-- a segment row (`.cns`) with the columns the filters read -/
@@ -52,9 +53,8 @@ def groupByKey {α κ} [BEq κ] (key : α → κ) (l : List α) : List (List α)
 def sumRat (l : List Rat) : Rat := l.foldl (· + ·) 0
 def sumInt (l : List Int) : Int := l.foldl (· + ·) 0
 
-/-- `squash_region` (columns chromosome, start, end, log2, gene, probes, weight; `cn`/`cn1`
-    are reported only when all members agree — the weighted median of unequal values belongs
-    to C19) -/
+/-- `squash_region` (columns chromosome, start, end, log2, gene, probes, weight, and `cn`/`cn1` as the
+    weighted median of the run's values) -/
 def squashRegion (rows : List Seg) : Option Seg :=
   match rows with
   | [] => none
@@ -63,8 +63,19 @@ def squashRegion (rows : List Seg) : Option Seg :=
     let w := sumRat (rows.map (·.weight))
     let log2 := if w > 0 then sumRat (rows.map (fun r => r.log2 * r.weight)) / w
                 else sumRat (rows.map (·.log2)) / (rows.length : Rat)
+    -- `weighted_median(values, weights)` (np.median when the run carries no weight): the common value when all
+    -- members agree (every filter but `ampdel` only squashes such runs); otherwise C19's model of the repaired
+    -- function on the pairs sorted by value (any order among equal values gives the same answer:
+    -- C19 `wmedian_tie_order_unobservable`); missing when a member has no value
     let agree (f : Seg → Option Rat) : Option Rat :=
-      if rows.all (fun r => f r == f first) then f first else none
+      if rows.all (fun r => f r == f first) then f first
+      else match rows.mapM f with
+        | none => none
+        | some vals =>
+          if w > 0 then
+            let pairs := (vals.zip (rows.map (·.weight))).mergeSort (fun a b => decide (a.1 ≤ b.1))
+            some (Desc.wmedSorted (Desc.wmedTol pairs) pairs)
+          else some (Desc.median vals)
     let cn := agree (·.cn)
     let cn1 := agree (·.cn1)
     some { chrom := first.chrom, s := first.s, e := last.e,
